@@ -40,6 +40,10 @@ func skeletonOpt(out string, scripting, noSwitch bool) skel {
 	if f.State == "TagOpen" {
 		f.State = "Data"
 	}
+	// inside an unfinished DOCTYPE every sub-state is left by the same character ('>'): one state
+	if strings.Contains(f.State, "DOCTYPE") {
+		f.State = "DOCTYPE"
+	}
 	// text tokens are not structure: the "#rawtext"-style markers only say that some text was present
 	var toks []string
 	for _, t := range htmltok.Skeleton(r) {
@@ -123,11 +127,24 @@ func check(c Case) evid.Outcome {
 		o.Skip = true
 		return o
 	}
+	// the author relation is judged on renderings in which trusted HTML values carry no markup of their own
+	ainert := c.Data.AuthorInert(c.Prog.Fields)
 	var rb bytes.Buffer
-	if err := rt.Execute(&rb, inert.Map()); err != nil {
+	if err := rt.Execute(&rb, ainert.Map()); err != nil {
 		o.Skip = true
 		o.Labels = append(o.Labels, "reference-error")
 		return o
+	}
+	outA := outI
+	if fmt.Sprint(ainert) != fmt.Sprint(inert) {
+		t3, _ := tx.Parse(text)
+		var errA error
+		outA, errA = tx.Exec(t3, ainert.Map())
+		if errA != nil {
+			o.Skip = true
+			o.Labels = append(o.Labels, "inert-rendering-refused")
+			return o
+		}
 	}
 	for _, v := range c.Data.V {
 		if v.Type == "" && hostileByte(string(v.S)) {
@@ -152,12 +169,13 @@ func check(c Case) evid.Outcome {
 		}
 	}
 	// relation 1: the author's markup (reference reading: scripting disabled)
-	si, sr := skeleton(outI, false), dropComments(skeleton(rb.String(), false))
+	si, sr := skeleton(outA, false), dropComments(skeleton(rb.String(), false))
 	if si.String() != sr.String() {
-		v := evid.Viol("engine output does not have the structure the author wrote\ntemplate: %q\ninert output: %q\nreference:    %q\nskeleton:           %s\nreference skeleton: %s", text, outI, rb.String(), si, sr)
+		v := evid.Viol("engine output does not have the structure the author wrote\ntemplate: %q\ninert output: %q\nreference:    %q\nskeleton:           %s\nreference skeleton: %s", text, outA, rb.String(), si, sr)
 		// known deviations of the author relation, each tied to the construct the generator itself flagged
 		// (data independence and the no-comment rule above are enforced inside these zones as everywhere else)
-		for _, z := range []string{"K-cmt", "K-rawnest", "K-bogus", "boundary-lt", "K-tagname", "K-foreign"} {
+		for _, z := range []string{"K-cmt", "K-rawnest", "K-bogus", "boundary-lt", "K-foreign", "K-endsplit"} {
+			// (the construct flagged zone:K-tagname is still generated: since F-tagnamesep such templates are refused)
 			if hasFlag(c.Prog.Flags, "zone:"+z) {
 				v.Finding = z
 				if z == "boundary-lt" {
@@ -172,7 +190,7 @@ func check(c Case) evid.Outcome {
 	}
 	if hasFlag(c.Prog.Flags, "zone:K-foreign") {
 		// the author relation under the foreign-content reading
-		fi, fr := skeletonOpt(outI, true, true), dropComments(skeletonOpt(rb.String(), true, true))
+		fi, fr := skeletonOpt(outA, true, true), dropComments(skeletonOpt(rb.String(), true, true))
 		if fi.String() != fr.String() {
 			v := evid.Viol("engine output does not have the structure the author wrote under the foreign-content reading (svg / math)\ntemplate: %q\ninert output: %q\nreference:    %q\nskeleton:           %s\nreference skeleton: %s", text, outI, rb.String(), fi, fr)
 			v.Finding = "K-foreign"
@@ -197,6 +215,18 @@ func genZones(t *rapid.T) Case {
 }
 
 func TestPropZones(t *testing.T) { evid.RunProp(t, "zones", 0.3, genZones, check) }
+
+// genSplice: programs of the same grammar (smaller), then 1-3 template nodes spliced in at arbitrary positions of
+// the static text, by preference inside tags.
+func genSplice(t *rapid.T) Case {
+	o := tmpl.DefaultOptions
+	o.MaxDepth, o.MaxItems = 2, 3
+	p := tmpl.Generate(t, o)
+	tmpl.Splice(t, p, 3)
+	return Case{Prog: *p, Data: tmpl.Bind(t, p)}
+}
+
+func TestPropSplice(t *testing.T) { evid.RunProp(t, "splice", 0.6, genSplice, check) }
 
 func TestPropStructure(t *testing.T) { evid.RunProp(t, "structure", 1, gen, check) }
 
@@ -274,5 +304,5 @@ func FuzzStructure(f *testing.F) {
 }
 
 func TestReplay(t *testing.T) {
-	evid.Replay(t, evid.R("fuzzstructure", check), evid.R("structure", check), evid.R("zones", check), evid.R("sets", checkSet))
+	evid.Replay(t, evid.R("fuzzstructure", check), evid.R("structure", check), evid.R("zones", check), evid.R("splice", check), evid.R("sets", checkSet))
 }
